@@ -44,14 +44,15 @@ def fetchRow (s : Txt) (i : Nat) : Except Err (Txt × Nat) := do
   let w := if w[0]! == '"' && w[w.size - 1]! == '"' then slice w 1 (w.size - 1) else w
   pure (strip w, e + 1)
 
-/-- `_fetchTextRow(dataStr, index)`: the quote-run loop is the one-pass machine `scanText` of Quote.lean -/
-def fetchTextRow (s : Txt) (i : Nat) : Except Err (Txt × Nat) := do
+/-- `_fetchTextRow(dataStr, index, stripText=…)`: the quote-run loop is the one-pass machine `scanText` of Quote.lean;
+`stripText=False` (fix A31: the tier-name row of `_parseShortTextgrid`) keeps the text between the quotes verbatim -/
+def fetchTextRow (s : Txt) (i : Nat) (stripText : Bool := true) : Except Err (Txt × Nat) := do
   -- endIndex = startIndex + 1; then the loop
   let n ← scanText none 0 (s.toList.drop (i + 1))
   let e := i + 1 + n
   let w := slice s i e
   let w := if w.size ≥ 2 then slice w 1 (w.size - 1) else (if w.size = 1 then #[] else w)   -- word[1:-1]
-  let w := (unescapeL (stripList w.toList)).toArray                                            -- .strip().replace('""', '"')
+  let w := (unescapeL (if stripText then stripList w.toList else w.toList)).toArray            -- [.strip()].replace('""', '"')
   let nl ← index s (lit "\n") e
   pure (w, nl + 1)
 
@@ -97,7 +98,7 @@ def shortTuples (data : Txt) : List (Nat × Nat × Bool) :=
 /-- the body of the tier loop of `_parseShortTextgrid` on `tierData = data[blockStartI:blockEndI]` -/
 def readBlock (td : Txt) (isI : Bool) : Except Err RawTier := do
   let (_, metaI) ← fetchRow td 0
-  let (name, i1) ← fetchTextRow td metaI
+  let (name, i1) ← fetchTextRow td metaI false
   let (st, i2) ← fetchRow td i1
   let (en, i3) ← fetchRow td i2
   let (_, i4) ← fetchRow td i3
@@ -172,9 +173,13 @@ def numAt (s : Txt) (j : Nat) : Option Txt :=
 def matchNumAt (s kw : Txt) (neg : Bool) (i : Nat) : Option Txt :=
   match head s kw i with
   | none => none
-  | some j0 => numAt s (if neg && j0 < s.size && s[j0]! == '-' then j0 + 1 else j0)
+  | some j0 =>
+    -- the optional sign is INSIDE the captured group (fix A30): the group is the sign followed by the numeral
+    let sg := if neg && j0 < s.size && s[j0]! == '-' then 1 else 0
+    (numAt s (j0 + sg)).map fun w => slice s j0 (j0 + sg) ++ w
 
-/-- `kw ?= ?-?([\d.]+(?:[eE][-+]?\d+)?)\s*$` (MULTILINE), `neg` = whether `-?` is in the pattern: the captured group -/
+/-- `kw ?= ?(-?[\d.]+(?:[eE][-+]?\d+)?)\s*$` (MULTILINE), `neg` = whether `-?` is in the pattern (it is, in the group, on
+every numeric row of `_parseNormalTextgrid` after fix A30): the captured group -/
 def matchNum (s kw : Txt) (neg : Bool) : Option Txt :=
   (findAll s kw).findSome? (matchNumAt s kw neg)
 
@@ -240,7 +245,7 @@ def headerField (hl : List Txt) (k : Nat) : Except Err Txt := do
 def readEntryLong (isI : Bool) (el : Txt) : Except Err (List String) := do
   if isI then
     let s1 ← need (matchNum el (lit "xmin") true)
-    let e1 ← need (matchNum el (lit "xmax") false)
+    let e1 ← need (matchNum el (lit "xmax") true)
     let lb ← need (matchText el (lit "text") true)
     pure [toStr s1, toStr e1, toStr (replace (strip lb) (lit "\"\"") (lit "\""))]
   else
@@ -261,10 +266,10 @@ def readTierLong (tt : Txt) : Except Err RawTier := do
   let d := splitKw tt (lit (if isI then "intervals" else "points"))
   let hdr := d.headD #[]
   let els := d.drop 1
-  let name ← need (matchText hdr (lit "name") false)
+  let name ← need (matchText hdr (lit "name") true)      -- MULTILINE | DOTALL since fix A32 (a name may span several lines)
   let name := replace name (lit "\"\"") (lit "\"")
   let st ← need (matchNum hdr (lit "xmin") true)
-  let en ← need (matchNum hdr (lit "xmax") false)
+  let en ← need (matchNum hdr (lit "xmax") true)
   let entries ← els.mapM (readEntryLong isI)
   pure ({ cls := if isI then "IntervalTier" else "TextTier", name := toStr name, xmin := toStr st, xmax := toStr en,
           entries := entries } : RawTier)
